@@ -253,7 +253,8 @@ class Check:
         self.known = [k for k in load_known().get("known", []) if k.get("property") == pid]
         self._nontrivial: set = set()
         self.notes: list[str] = []
-        self.max_viol_reports = 5
+        self.max_viol_reports = 8
+        self._viol_keys: dict[str, int] = {}
 
     # -- coverage helpers
     def add_tlc(self, r: TLCResult) -> None:
@@ -285,7 +286,11 @@ class Check:
                     print(f"KNOWN-FINDING: property={self.pid} {k['what']} [{key}]", flush=True)
                 return
         self.nviol += 1
-        if self.nviol > self.max_viol_reports:
+        if key in self._viol_keys:
+            self._viol_keys[key] += 1
+            return
+        self._viol_keys[key] = 1
+        if len(self._viol_keys) > self.max_viol_reports:
             return
         d = VERIF / "replays" / self.pid
         d.mkdir(parents=True, exist_ok=True)
